@@ -77,7 +77,7 @@ func ZZ_C18_PoolHistory() {
 	for step := 0; step < k; step++ {
 		j := zzverif.Choice(3)
 		s := &slots[j]
-		switch zzverif.Choice(5) {
+		switch zzverif.Choice(6) {
 		case 0: // explicitly owned writer
 			zzverif.Assume(!s.live)
 			*s = zzC18slot{w: newWriter(nil, false), live: true}
@@ -89,10 +89,7 @@ func ZZ_C18_PoolHistory() {
 			s.w.Value().Bool(true)
 			s.w.Value().Bool(true)
 			zzverif.Assert(s.w.Err() != nil, "misuse must fail")
-			s.failed = true
-			if s.pooled {
-				s.live = false // an auto-released writer is abandoned after failure
-			}
+			s.failed = true // the owner still holds the writer and may keep calling it
 		case 3: // the owner writes a root message and builds it
 			zzverif.Assume(s.live && !s.failed && !s.built)
 			v := zzverif.Byte()
@@ -107,6 +104,16 @@ func ZZ_C18_PoolHistory() {
 				s.live = false // auto-released on root end: the owner must not touch it again
 			}
 			zzverif.Reach("built")
+		case 5: // the owner of a failed writer carries on with its program: everything must keep failing
+			zzverif.Assume(s.live && s.failed)
+			m := s.w.Message()
+			err1 := m.Field(9).Byte(1)
+			_, err2 := m.Build()
+			zzverif.Assert(err1 != nil && err2 != nil, "failed writer accepted further writes")
+			if s.pooled {
+				s.live = false // the program is over; an auto-released writer is dropped
+			}
+			zzverif.Reach("failed-continues")
 		case 4: // the owner of an explicitly owned writer frees it (documented duty)
 			zzverif.Assume(s.live && !s.pooled)
 			s.w.Free()
